@@ -65,10 +65,11 @@ def check_case(ctx, case, ops=None, tag_prefix=""):
         factory = lambda sim: detsim.scripted(ops, finish=case.get("finish", True))
     else:
         factory = lambda sim: CS.random_chooser(rng, case["personality"], case.get("p_kill", 0.0),
-                                                p_split=case.get("p_split", 0.0))
+                                                p_split=case.get("p_split", 0.0),
+                                                p_complete=case.get("p_complete", 0.0))
     try:
         res = CS.run_real(case["template"], scripts if scripts is not None else mk_scripts, factory,
-                          cont=case.get("cont", ()), real=bool(case.get("real")))
+                          cont=case.get("cont", ()), real=bool(case.get("real")), verbose=bool(case.get("verbose")))
     except Exception as exc:  # noqa: the generated package was rejected / could not be built
         ctx.tag(tag_prefix + "build-error:" + type(exc).__name__)
         return None
@@ -76,6 +77,8 @@ def check_case(ctx, case, ops=None, tag_prefix=""):
     full["scripts"] = res.scripts
     full["ops"] = res.ops
     full["finish"] = res.result != "stopped"
+    if case.get("verbose"):
+        ctx.tag("logging:enabled-down-to-level-1")
     n = len(res.info["comps"])
     launched = sum(1 for c in res.snaps[-1]["comps"] if c[3] > 0) if res.snaps else 0
     win = CS.window_scheds(res)
@@ -85,6 +88,26 @@ def check_case(ctx, case, ops=None, tag_prefix=""):
     tags += ["op:" + k for k in sorted(kinds)]
     if any(c["isRepeat"] for c in res.info["comps"]):
         tags.append("has:repeat")
+    cs_ = res.info["comps"]
+    if any(c["isRepeat"] and any(cs_[p]["stage"] < c["stage"] for p in c["preds"]) for c in cs_):
+        tags.append("has:repeating-consumer-of-earlier-stage-producer")
+    if any(c["isRepeat"] and c["preds"] and all(cs_[p]["stage"] < c["stage"] for p in c["preds"]) for c in cs_):
+        tags.append("has:repeating-consumer-with-earlier-stage-producers-only")
+    if any(c["isRepeat"] and not c["preds"] for c in cs_):
+        tags.append("has:repeating-component-without-producers")
+    for i_, views in res.launches:
+        c_ = cs_[i_]
+        if c_["isRepeat"] and views and all(v is not None for (_p, v, _s) in views):
+            tags.append("observer-staged-in-after-all-its-producers-ended")
+            break
+    for op, snap in zip(res.ops, res.snaps):
+        if op[0] == "complete":
+            tags.append("completion-hook-fired")
+            if any(c[0] not in CS.FINAL and c[4] and cs_[i]["stage"] == op[1] for i, c in enumerate(snap["comps"])):
+                tags.append("completion-hook-fired-while-a-task-of-the-stage-was-running")
+            break
+    if any(len(c["preds"]) >= 10 for c in cs_):
+        tags.append("has:ten-or-more-producers")
     if any(c["isAgg"] for c in res.info["comps"]):
         tags.append("has:aggregator")
     if any(c["isRepl"] for c in res.info["comps"]):
@@ -203,7 +226,8 @@ def gen_case(rng, idx):
     template, cont = CS.gen_workflow(rng)
     return {"template": template, "cont": cont, "scripts": None, "seed": rng.randrange(1 << 30),
             "personality": rng.choice(sorted(CS.PERSONALITIES)), "p_kill": rng.choice([0, 0, 0, 0.01, 0.03]),
-            "flavour": None, "real": rng.random() < 0.25, "p_split": rng.choice([0, 0.25, 0.5, 0.8])}
+            "flavour": None, "real": rng.random() < 0.25, "p_split": rng.choice([0, 0.25, 0.5, 0.8]),
+            "p_complete": rng.choice([0, 0, 0, 0.02, 0.06]), "verbose": rng.random() < 0.06}
 
 
 def corpus_cases():
@@ -253,25 +277,57 @@ def setup(ctx):
     detsim.install()
 
 
-def run_n(ctx, n, n_loops=0):
+def rerun_later(ctx, kept):
+    """Family "state shared between independent runs in one process" (class attributes, module-level caches, memo
+    tables keyed by component names - every generated workflow uses the names stage0.c0, stage0.c1 ... in different
+    roles): a sample of the cases is run AGAIN at the end, in reverse order, after all the unrelated cases, under
+    exactly the recorded schedule; the real Controller must give the same answers (state after every op, launches,
+    results of run())."""
+    for case, res in reversed(kept):
+        try:
+            again = CS.run_real(case["template"], res.scripts,
+                                lambda sim: detsim.scripted(res.ops, finish=res.result != "stopped"),
+                                cont=case.get("cont", ()), real=bool(case.get("real")))
+        except Exception as exc:  # noqa
+            ctx.tag("rerun:build-error:" + type(exc).__name__)
+            continue
+        ctx.tag("cases-run-again-later-in-the-same-process")
+        k = len(res.snaps)
+        first = {"results": res.results, "final": res.final, "launches": res.launches, "snaps": res.snaps}
+        later = {"results": again.results, "final": again.final, "launches": again.launches[:len(res.launches)],
+                 "snaps": again.snaps[:k]}
+        if common.canon(first) != common.canon(later):
+            kk = CS.first_mismatch(first["snaps"], later["snaps"])
+            ctx.fail("result-depends-on-earlier-cases", dict(case, scripts=res.scripts, ops=res.ops),
+                     {"first_difference_at_op": kk, "first_run": {"results": res.results, "final": res.final},
+                      "later_run": {"results": again.results, "final": again.final}})
+
+
+def run_n(ctx, n, n_loops=0, n_again=12):
     rng = ctx.rng
     for case in corpus_cases():
         if "loop" in case:
             check_loop_case(ctx, case, ops=case.get("ops"), tag_prefix="corpus:")
         else:
             check_case(ctx, case, ops=case.get("ops"), tag_prefix="corpus:")
+    kept = []
+    every = max(1, n // max(1, n_again))
     for i in range(n):
-        check_case(ctx, gen_case(rng, i))
+        case = gen_case(rng, i)
+        res = check_case(ctx, case)
+        if res is not None and i % every == 0 and len(kept) < n_again:
+            kept.append((case, res))
     for i in range(n_loops):
         check_loop_case(ctx, CS.gen_loop_case(rng))
+    rerun_later(ctx, kept)
 
 
 def run(ctx):
     setup(ctx)
     if ctx.tier == "quick":
-        run_n(ctx, 300, 80)
+        run_n(ctx, 300, 80, 12)
     else:
-        run_n(ctx, 3000, 800)
+        run_n(ctx, 3000, 800, 60)
 
 
 def replay(ctx, doc):
